@@ -45,6 +45,7 @@ static inline uint64_t myth_get_rdtsc() {
 }
 
 static inline int hr_gettime(struct timespec * ts) {
+  if (MYTH_VERIF_CLOCK(ts)) return 0;
 #if defined(HAVE_LIBRT)
   return clock_gettime(CLOCK_REALTIME, ts);
 #else
@@ -70,6 +71,7 @@ static inline void myth_random_init(unsigned int seed) {
 //Return a random integer with a range [min,max)
 static inline int myth_random(int min,int max) {
   int ret;
+  { int vc = MYTH_VERIF_CHOOSE(min, max); if (vc >= 0) return vc; }
   if (!g_myth_random_temp){
     myth_random_init(((unsigned)time(NULL)));
   }
